@@ -172,11 +172,20 @@ static std::string kfpv(Toks& t) {
     VState* vs = new VState(n); VExo* ve = nullptr;
     std::unique_ptr<LinearStateModel> sm(vs);
     if (exo) { ve = new VExo; ve->G_ = MatrixXd::Zero(n, n); ve->g_ = VectorXd::Zero(n); vs->add_exogenous_model(std::unique_ptr<ExogenousModel>(ve)); }
-    KFPrediction p(std::move(sm));
+    std::unique_ptr<KFPrediction> pp(new KFPrediction(std::move(sm)));
     long calls = t.nat();
     Out o; o.s("ok");
     static const char* names[3] = {"prediction", "state", "exogenous"};
     for (long c = 0; c < calls; ++c) {
+        long hand = t.nat();      // hand the object over before this call: 0 no, 1 move construction, 2 move assignment
+        if (hand == 1) { pp.reset(new KFPrediction(std::move(*pp))); }
+        if (hand == 2) {
+            std::unique_ptr<LinearStateModel> other(new HState(MatrixXd::Identity(n, n) * 7.0, MatrixXd::Identity(n, n) * 9.0));
+            std::unique_ptr<KFPrediction> q(new KFPrediction(std::move(other)));
+            *q = std::move(*pp);
+            pp = std::move(q);
+        }
+        KFPrediction& p = *pp;
         vs->F_ = t.mat(n, n); vs->Q_ = t.mat(n, n);
         if (exo) { ve->G_ = t.mat(n, n); ve->g_ = t.vec(n); }
         long nskip = t.nat();
@@ -201,11 +210,16 @@ static std::string kfcv(Toks& t) {
     long n = t.nat(), m = t.nat();
     VMeas* vm = new VMeas; vm->H_ = MatrixXd::Zero(m, n); vm->R_ = MatrixXd::Identity(m, m); vm->y_ = VectorXd::Zero(m);
     std::unique_ptr<LinearMeasurementModel> vmp(vm);
-    KFCorrection c(std::move(vmp));
+    std::unique_ptr<KFCorrection> cp(new KFCorrection(std::move(vmp)));
     long calls = t.nat();
     Out o; o.s("ok");
-    { bool v; VectorXd l; std::tie(v, l) = c.getLikelihood(); o.s(v ? "prelik" : "noprelik"); }
+    { bool v; VectorXd l; std::tie(v, l) = cp->getLikelihood(); o.s(v ? "prelik" : "noprelik"); }
     for (long cc = 0; cc < calls; ++cc) {
+        long hand = t.nat();      // 1: the object is move-constructed into a new one before this call
+        if (hand == 1) { cp.reset(new KFCorrection(std::move(*cp))); }
+        KFCorrection& c = *cp;
+        long nskip = t.nat();     // skip(bool) commands; the generator ends every history with skip(false)
+        for (long q = 0; q < nskip; ++q) c.skip(t.flag());
         vm->H_ = t.mat(m, n); vm->R_ = t.mat(m, m); vm->y_ = t.vec(m);
         long nlik = t.nat(), k = t.nat();
         GaussianMixture pred(k, n), corr(k, n);
